@@ -333,7 +333,28 @@ func runC45(c *Ctx) {
 							continue
 						}
 						// the remainder may be skipped only when there is none: total − operator ≤ assigned on that edge
-						if !pr.factHolds(diff.X, diff.Y, ph.Block().Preds[i]) {
+						pred := ph.Block().Preds[i]
+						edgeOK := pr.factHolds(diff.X, diff.Y, pred)
+						if iff, isIf := pred.Instrs[len(pred.Instrs)-1].(*ssa.If); isIf && !edgeOK {
+							if cb, isBo := iff.Cond.(*ssa.BinOp); isBo {
+								for sidx, sb := range pred.Succs {
+									if sb != ph.Block() {
+										continue
+									}
+									op := cb.Op
+									if sidx == 1 {
+										op = negOp(op)
+									}
+									if exprEq(cb.X, diff.X) && exprEq(cb.Y, diff.Y) && (op == token.LEQ || op == token.LSS || op == token.EQL) {
+										edgeOK = true
+									}
+									if exprEq(cb.X, diff.Y) && exprEq(cb.Y, diff.X) && (op == token.GEQ || op == token.GTR || op == token.EQL) {
+										edgeOK = true
+									}
+								}
+							}
+						}
+						if !edgeOK {
 							okRem = false
 						}
 					}
